@@ -1448,8 +1448,12 @@ class SQLGenerator:
         # Partition filters by model so sub-queries only get relevant filters.
         # Cross-model filters (referencing models outside the sub-query) would
         # produce invalid SQL referencing CTEs that don't exist.
-        all_model_names = set(metrics_by_model.keys())
-        pushdown_by_model, shared_filters = self._classify_filters_for_pushdown(all_filters, all_model_names)
+        # A row filter on any model (a metric model or one that is only filtered on) restricts every
+        # metric of the query, so every sub-query gets all of them: generate() joins the filtered
+        # model into the sub-query. Only filters that reference metrics (or several models) stay
+        # on the outer query.
+        pushdown_by_model, shared_filters = self._classify_filters_for_pushdown(all_filters, set(self.graph.models))
+        row_filters = [f for model_filters in pushdown_by_model.values() for f in model_filters]
 
         # Generate a pre-aggregated CTE for each metric model
         preagg_ctes = []
@@ -1459,8 +1463,7 @@ class SQLGenerator:
             cte_name = f"{model_name}_preagg"
             cte_names.append(cte_name)
 
-            # Only pass filters relevant to this model's sub-query
-            model_filters = pushdown_by_model.get(model_name, [])
+            model_filters = row_filters
 
             # Generate sub-query for this model's metrics at the dimension grain
             # We call generate() recursively but it won't trigger pre-aggregation
